@@ -105,7 +105,7 @@ def run(tier, seed):
             schedules.setdefault(int(parts[1]), []).append(json.loads(json.loads(parts[2])))
     if sum(len(v) for v in schedules.values()) != sum(2 ** (n - 1) for n in range(1, 8)):
         raise common.Machinery("expected all compositions for n <= 7, got %s" % {k: len(v) for k, v in schedules.items()})
-    ng, mu = (30, 6) if tier == "quick" else (400, 7)
+    ng, mu = (50, 6) if tier == "quick" else (400, 7)
     rnd = random.Random(seed)
     extra = [gen.rand_bits_grammar(rnd, 16) for _ in range(3 if tier == "quick" else 20)]
     cases = build_corpus(rep, seed + 2000, ng, mu, bits_share=0.0, bytes_share=0.3)
@@ -120,9 +120,13 @@ def run(tier, seed):
     nwords = 0
     for c in cases:
         words = [w for w in c["inside"] if in_class(c, w)]
-        cap = 10 if tier == "quick" else 25
+        cap = 14 if tier == "quick" else 30
         if len(words) > cap:
-            words = rnd.sample(words, cap)
+            # stratified: words with characters outside ASCII first (their units are not their bytes), then a random rest
+            wide = [w for w in words if isinstance(w, str) and any(ord(ch) > 127 for ch in w)]
+            wide = rnd.sample(wide, min(len(wide), cap // 2))
+            rest = [w for w in words if w not in wide]
+            words = wide + rnd.sample(rest, cap - len(wide))
         nwords += len(words)
         jobs.append((c["spec"], words, schedules, c["g"]["start"]))
     total = 0
